@@ -294,9 +294,26 @@ def l1_case(sc: dict) -> str | None:
     return None
 
 
+_floaty = None
+
+
+def _float_payloads():
+    global _floaty
+    if _floaty is None:
+        _floaty = [c for c in universe.load() if "float64" in universe.features(c)]
+    return _floaty
+
+
 def gen_l1(rng) -> dict:
     n = rng.choice((1, 1, 2, 2, 3, 4, 6, 8))
     msgs = [gen_message(rng) for _ in range(n)]
+    if rng.random() < 0.06:
+        # a message with float fields followed by its equal-valued twin (+0.0 / -0.0)
+        cls = rng.choice(_float_payloads())
+        inst = gen.to_tree(gen.gen_instance(rng, cls, _small_shape(rng)))
+        a, b = gen.zero_twins(rng, inst)
+        q = universe.qualname(cls)
+        msgs += [{"entities": [[q, a]], "size_prefix": False}, {"entities": [[q, b]], "size_prefix": False}]
     g0 = rng.randbytes(rng.choice((0, 0, 1, 3, 17)))
     g1 = rng.randbytes(rng.choice((0, 1, 1, 5, 40)))
     total_guess = 4096
